@@ -575,6 +575,36 @@ def make_case(seed, idx, tier):
     return e, o, text, raw, rnd
 
 
+def probe_case(R, seed, idx, tier):
+    "cheap look at candidate case idx: which package lines its uninterrupted count executes (for pool selection)"
+    signal.signal(signal.SIGINT, signal.default_int_handler)
+    _, o, text, _, _ = make_case(seed, idx, tier)
+    ref = run_reference(R, text, o, 'line', REF_BUDGET[tier])
+    if not ref['ok']:
+        return dict(idx=idx, ok=False, why=ref['why'], T=0, lines=frozenset())
+    return dict(idx=idx, ok=True, why=None, T=ref['T'],
+                lines=frozenset("%s:%d" % (s_[0], s_[2]) for s_ in ref['site_list']))
+
+
+def select_cases(probes, n, novel_share=0.34, t_cap=200_000):
+    """choose n case indices out of the probed pool: first those whose count executes package lines no earlier
+    candidate executed (rare rule branches: stable states, zero batches, ties broken ...), at most novel_share*n of
+    them; then the earliest remaining indices.  Deterministic: depends only on the probes, in index order."""
+    seen = set()
+    novel = []
+    for p in probes:
+        if not p['ok'] or p['T'] > t_cap:
+            continue
+        new = p['lines'] - seen
+        if new:
+            seen |= p['lines']
+            if p['idx'] >= n:           # the first n are taken anyway
+                novel.append(p['idx'])
+    novel = novel[:int(n * novel_share)]
+    rest = [p['idx'] for p in probes if p['idx'] not in set(novel)][:n - len(novel)]
+    return sorted(rest + novel), novel
+
+
 def _same_ref(a, b):
     return a['T'] == b['T'] and a['actions'] == b['actions'] and a['rend'] == b['rend']
 
